@@ -70,6 +70,15 @@ def corruptions(f, rng, thorough):
     yield f[:-2] + f[-1:] + f[-2:-1]
 
 
+def lenient(cases):
+    """every third VALCKSUM call is preceded, in the same interpreter, by a lenient (VALNONE) parse of the same bytes:
+    what VALCKSUM lets through must not depend on what was parsed before"""
+    for k, (o, c) in enumerate(cases):
+        if o == "c05_parse" and k % 3 == 0:
+            c = dict(c, lenient_first=1)
+        yield (o, c)
+
+
 def run(ctx):
     rng = ctx.rng
     ctx.rule = ("every byte string reachable by <=2 (quick) / <=2 exhaustive + sampled 3 (thorough) faults from a 6-frame "
@@ -99,7 +108,7 @@ def run(ctx):
     ctx.mc("MC_Frame", "MC_Frame_pinned.cfg", expect_violation="AcceptOnlyWellFormed")
     # 3. replay of the dump
     cases = [("c05_parse", {"f": f.hex()}) for f in dumped]
-    run_batch(ctx, MODULE, CFG, cases, frames.OBSERVERS, sigfn, negfn)
+    run_batch(ctx, MODULE, CFG, lenient(cases), frames.OBSERVERS, sigfn, negfn)
     ctx.extra["spec_to_code_replayed"] = len(cases)
     # 4. real-size corruptions
     rf = real_frames(rng)
@@ -144,7 +153,7 @@ def run(ctx):
                     for pbf in (0, 1):
                         yield ("c05_valnone", {"f": f.hex(), "g": (f[:-2] + ck).hex(), "pbf": pbf})
 
-    run_batch(ctx, MODULE, CFG, gen(), frames.OBSERVERS, sigfn, negfn)
+    run_batch(ctx, MODULE, CFG, lenient(gen()), frames.OBSERVERS, sigfn, negfn)
 
     # long frames (lengths around the byte / block boundaries and up to the 16-bit limit): checksum bytes and sampled positions
     def gen_long():
@@ -166,7 +175,7 @@ def run(ctx):
             yield ("c05_parse", {"f": f[:-1].hex()})
             yield ("c05_parse", {"f": (f + b"\x00").hex()})
 
-    run_batch(ctx, MODULE, CFG, gen_long(), frames.OBSERVERS, sigfn, negfn, chunk=400)
+    run_batch(ctx, MODULE, CFG, lenient(gen_long()), frames.OBSERVERS, sigfn, negfn, chunk=400)
     ctx.exhaustive = False
     ctx.assumptions += ["third-party struct/int codecs of CPython are correct",
                         "TLC evaluates Fletcher8/WellFormed as written in spec/UbxFrame.tla (independent of calc_checksum)"]
